@@ -278,6 +278,13 @@ Proof.
   injection E as E. destruct (IH l' E H) as [x Hx]. exists x. now right.
 Qed.
 
+Lemma nodupb_NoDup l : nodupb l = true -> NoDup l.
+Proof.
+  induction l as [|x l IH]; cbn; intro H; [constructor|].
+  apply andb_true_iff in H. destruct H as [H1 H2]. constructor; [|now apply IH].
+  intro Hin. apply in_charset_In in Hin. unfold in_charset in Hin. rewrite Hin in H1. discriminate.
+Qed.
+
 Section CfgOk.
   Variable c : cfg.
   Hypothesis OK : cfg_ok c.
@@ -290,7 +297,7 @@ Section CfgOk.
     char_at c (or_bits (bits c) bl 0) = ch.
 
   Lemma cfg_ok_parts :
-    length (charset c) = length (all_bits b) /\
+    length (charset c) = length (all_bits b) /\ NoDup (charset c) /\
     (forall ch bl, In (ch, bl) (combine (charset c) (all_bits b)) -> pair_ok ch bl) /\
     (minx c == - maxx c)%Q /\ (miny c == - maxy c)%Q /\ (0 < maxx c)%Q /\ (0 < maxy c)%Q.
   Proof.
@@ -299,8 +306,9 @@ Section CfgOk.
     apply andb_true_iff in K. destruct K as [K Hx].
     apply andb_true_iff in K. destruct K as [K Hmy].
     apply andb_true_iff in K. destruct K as [K Hmx].
-    apply andb_true_iff in K. destruct K as [HL HF].
-    split; [now apply Nat.eqb_eq|]. split.
+    apply andb_true_iff in K. destruct K as [K HF].
+    apply andb_true_iff in K. destruct K as [HL HN].
+    split; [now apply Nat.eqb_eq|]. split; [now apply nodupb_NoDup|]. split.
     - intros ch bl Hin. rewrite forallb_forall in HF. specialize (HF _ Hin). cbn beta iota in HF.
       apply andb_true_iff in HF. destruct HF as [HF H4].
       apply andb_true_iff in HF. destruct HF as [HF H3].
@@ -316,7 +324,7 @@ Section CfgOk.
   (* every alphabet character has a bit list of the right length, and encodes back *)
   Lemma cfg_ok_char ch : In ch (charset c) -> exists bl, length bl = b /\ pair_ok ch bl.
   Proof.
-    destruct cfg_ok_parts as (L & P & _). intro H.
+    destruct cfg_ok_parts as (L & _ & P & _). intro H.
     destruct (in_combine_l_ex _ _ ch L H) as [bl Hb]. exists bl. split; [|now apply P].
     apply in_combine_r in Hb. now apply all_bits_length.
   Qed.
@@ -324,7 +332,7 @@ Section CfgOk.
   (* every bit list of the right length has its character *)
   Lemma cfg_ok_bits bl : length bl = b -> exists ch, pair_ok ch bl.
   Proof.
-    destruct cfg_ok_parts as (L & P & _). intro H.
+    destruct cfg_ok_parts as (L & _ & P & _). intro H.
     apply all_bits_length in H. destruct (in_combine_r_ex _ _ bl L H) as [ch Hc]. exists ch. now apply P.
   Qed.
 
